@@ -153,7 +153,7 @@ theorem typeCompat_unused (inp : CInput) (fuel : Nat) (tc : List (List CTag))
 test accepts a tag whose type entry is `id`, every value of type `id` — in particular a well-tagged
 value carrying that tag (`WellTagged`, C01's invariant, is the hypothesis `inh … id v`) — inhabits
 the pattern. -/
-theorem isType_sound (inp : CInput) (hT : Ordered inp.table) (fuel : Nat) (tc : List (List CTag))
+theorem isType_sound (inp : CInput) (fuel : Nat) (tc : List (List CTag))
     (h : typeCompat inp fuel = some tc) (p id : Nat) (c : CTag)
     (hacc : isType tc p c = true) (hty : tagType inp (TypeIndex.build inp.table) c = some id)
     (hid : FO inp.table id) (hp : FO inp.table p) :
@@ -169,7 +169,7 @@ theorem isType_sound (inp : CInput) (hT : Ordered inp.table) (fuel : Nat) (tc : 
       simpa using hacc
     have hacc' := ((compatSet_spec inp _ fuel p set hset c).mp hmem).2
     rw [tagAccepts_of_type inp _ fuel p id c hty] at hacc'
-    exact C09.compat_sound_fo inp.table hT id p fuel hid hp hacc'
+    exact C09.compat_sound_fo inp.table id p fuel hid hp hacc'
   · rw [typeCompat_unused inp fuel tc h p hplt hused c] at hacc
     simp at hacc
 
@@ -310,9 +310,9 @@ theorem F13_shaken_never_accepts (fuel pattern : Nat) :
   tagAccepts_absent _ _ _ _ _ F13_shaken_has_no_entry (by decide)
 
 /-- hypotheses of `isType_sound` are satisfiable: F12's table with a function testing `IsType 6` -/
-example : ∃ inp : CInput, Ordered inp.table ∧
+example : ∃ inp : CInput,
     (typeCompat inp 12).map (fun tc => isType tc 6 (.tuple 4)) = some true ∧
     tagType inp (TypeIndex.build inp.table) (.tuple 4) = some 5 ∧ FO inp.table 5 ∧ FO inp.table 6 :=
-  ⟨⟨C09.tF12, [⟨0, [6]⟩], [], []⟩, by decide, by decide, by decide, ⟨4, by decide⟩, ⟨4, by decide⟩⟩
+  ⟨⟨C09.tF12, [⟨0, [6]⟩], [], []⟩, by decide, by decide, ⟨4, by decide⟩, ⟨4, by decide⟩⟩
 
 end C08
